@@ -90,7 +90,7 @@ theorem data_before_connect_is_error (e : Engine) (bs : Bytes) (hs : e.state = .
 /-- **No CONNACK by the deadline is a connection-establishment failure.** -/
 theorem connack_timeout (e : Engine) (cap prefill d : Nat) (hs : e.state = .pendingConnack) (hd : e.connackDeadline = some d)
     (ht : e.now ≥ d) : (e.service cap prefill).2 = .err "ConnectionEstablishmentFailure" ∧ (e.service cap prefill).1.state = .halted := by
-  simp [Engine.service, hs, hd, ht]
+  simp [Engine.service, Engine.serviceCore, hs, hd, ht]
 
 /-- **Negotiated settings are the CONNACK's values, completed with the CONNECT's values or the
     specification's defaults.** -/
